@@ -60,7 +60,8 @@ class Model:
         if not is_call(e, 'len') or not e.args:
             return False
         s = e.args[0].strip()
-        return is_call(s, 'PushTruncateContainer::slice') and self.is_container(s.args[0])
+        # (the physical length read through the shared or the mutable view of the same container)
+        return (is_call(s, 'PushTruncateContainer::slice') or is_call(s, 'PushTruncateContainer::slice_mut')) and self.is_container(s.args[0])
 
     def is_threshold(self, e):
         """len / k (k >= 2) or len >> k (k >= 1)"""
@@ -235,10 +236,11 @@ def r15_2(cx):
             ss = fn.succs()[b]
             if len(ss) == 2 and any(fn.path(s_, fn.returns()) is None for s_ in ss) and not any((b, s_) in m.restore_edges(fn) for s_ in ss):
                 continue
-            # a branch that no mutation of the counter / container can reach (an early `return 0` before anything
-            # happened) is not a trigger: there is nothing to restore yet on either side
+            # in a function that mutates the counter / container, a branch that none of its mutations can reach (an
+            # early `return 0` before anything happened) is not a trigger: there is nothing to restore yet on either
+            # side.  (A function without mutations of its own, like maybe_slide, is all trigger.)
             dirty = m.dirty_events(fn, cx)
-            if not any(k[0] == b for k in m.restore_edges(fn)) and not any(pos.idx < 0 for pos, _d in dirty) and \
+            if dirty and not any(k[0] == b for k in m.restore_edges(fn)) and not any(pos.idx < 0 for pos, _d in dirty) and \
                     not any(pos.bb == b or b in fn.reachable(pos.bb) for pos, _d in dirty if pos.idx >= 0):
                 continue
             n += 1
